@@ -49,6 +49,7 @@ class World:
         self.HW = cx.fresh('halfway_tree', B)
         self.grid = cx.fresh('grid_mode', B) if grid is None else z3.BoolVal(grid)   # tol > 0
         self.u = cx.fresh('u')                                                      # grid unit
+        self.tol = cx.fresh('tol')                                                  # top._tol:  0 when not in grid mode, else 0 < tol <= u
         self.have_H = cx.fresh('have_H', B)
         self.entropy = cx.fresh('entropy', Z)
         self.pool = cx.fresh('pool_size', Z)
@@ -59,7 +60,9 @@ class World:
 
     # ------------------------------------------------------------------ rounding (T5)
     def round_axioms(self, *xs):
-        out = [z3.Implies(self.HW, self.grid), self.u > 0]
+        # _round = round(x, ndigits) with ndigits = -int(log10(tol)):  the grid unit u = 10**-ndigits satisfies tol <= u < 10 tol (T5)
+        out = [z3.Implies(self.HW, self.grid), self.u > 0,
+               z3.If(self.grid, z3.And(self.tol > 0, self.tol <= self.u, self.u < 10 * self.tol), self.tol == 0)]
         x, y = z3.Reals('x_ y_')
         out.append(z3.ForAll([x], ROUND(ROUND(x)) == ROUND(x), patterns=[ROUND(x)]))
         out.append(z3.ForAll([x, y], z3.Implies(x <= y, ROUND(x) <= ROUND(y)), patterns=[z3.MultiPattern(ROUND(x), ROUND(y))]))
@@ -260,6 +263,8 @@ def top_field(w, name, cx, lineno):
         return RoundFn()
     if name == '_halfway_tree':
         return SB(w.HW)
+    if name == '_tol':
+        return SV(w.tol)
     if name == '_have_H':
         return SB(w.have_H)
     if name == '_entropy':
